@@ -500,7 +500,12 @@ def gen_datetime(rv, cfg) -> str:
         )
     if cfg.get("tz_aware") and rv.random() < 0.5:
         offset = rv.choice([0, 60, -300, 330, 765])
-        base = base.replace(tzinfo=dt.timezone(dt.timedelta(minutes=offset)))
+        seconds = offset * 60
+        if cfg.get("tz_seconds", True) and rv.random() < 0.15:
+            # local mean time: an offset with a seconds part (Amsterdam
+            # +00:19:32 until 1937, Kolkata +05:53:28 until 1906)
+            seconds = rv.choice([1172, 21208, -2670])
+        base = base.replace(tzinfo=dt.timezone(dt.timedelta(seconds=seconds)))
     return base.isoformat()
 
 
